@@ -49,7 +49,7 @@ def main():
             return sum(a) + sum(k.values())
 
     def world():
-        d = dict(a=1.5, b=2.0, c=3.0, k="a", i=1, lst=[10.0, 20.0, 30.0], n=dict(x=4.0, y=5.0), t=0.0)
+        d = dict(a=1.5, b=2.0, c=3.0, k="a", i=1, lst=[10.0, 20.0, 30.0], n=dict(x=4.0, y=5.0), t=0.0, tbl={0: 7.0, 1: 8.0})
         m = xdeps.Manager()
         r = m.ref(d, "d")
         fr = m.ref(F, "f")
@@ -79,13 +79,16 @@ def main():
         return [(n, (lambda X, src=src: eval(src, dict(env, X=X)))) for n, src in S], dict(S)
 
     FILL = {"item": "r['a']", "nested-item": "r['n']['x']", "computed-key": "r['lst'][r['i']]",
-            "deep": "(r['a'] + 1) * r['b']", "container": "r"}
+            "deep": "(r['a'] + 1) * r['b']", "container": "r",
+            # different locations whose keys (hence precomputed hashes) collide: hash(-1) == hash(-2); 1 == 1.0 == True; 0 == 0.0 == False
+            "key -1": "r['lst'][-1]", "key -2": "r['lst'][-2]", "key 1": "r['tbl'][1]", "key 1.0": "r['tbl'][1.0]", "key True": "r['tbl'][True]",
+            "key 0": "r['tbl'][0]", "key False": "r['tbl'][False]", "two colliding": "r['lst'][-2] - r['lst'][-1]"}
     WORLD_SRC = """import xdeps, operator, math
 import xdeps.refs as R
 class F:
     @staticmethod
     def f(*a, **k): return sum(a) + sum(k.values())
-d = dict(a=1.5, b=2.0, c=3.0, k="a", i=1, lst=[10.0, 20.0, 30.0], n=dict(x=4.0, y=5.0), t=0.0)
+d = dict(a=1.5, b=2.0, c=3.0, k="a", i=1, lst=[10.0, 20.0, 30.0], n=dict(x=4.0, y=5.0), t=0.0, tbl={0: 7.0, 1: 8.0})
 m = xdeps.Manager(); r = m.ref(d, "d"); fr = m.ref(F, "f")
 SLOTS = ("_owner", "_key", "_lhs", "_rhs", "_arg", "_op", "_params", "_func", "_args", "_kwargs")
 def locs(e):
@@ -103,7 +106,9 @@ def locs(e):
 """
 
     def slot_script(bsrc, fsrc):
-        return PRELUDE + WORLD_SRC + f"X = {fsrc}\ne = {bsrc}\ngot = e._get_dependencies()\nprint(e, '->', got)\n" \
+        # (the harness has queried the other operands before, in this order, in the same process: state kept across queries is part of the input)
+        warm = f"for _src in {list(FILL.values())!r}:\n    if _src == {fsrc!r}:\n        break\n    eval(_src)._get_dependencies()\n"
+        return PRELUDE + WORLD_SRC + warm + f"X = {fsrc}\ne = {bsrc}\ngot = e._get_dependencies()\nprint(e, '->', got)\n" \
             "assert isinstance(got, set), 'result is not a set'\nassert got == locs(e), ('reported', sorted(map(str, got)), 'inside', sorted(map(str, locs(e))))\n"
 
     rac.section("slots", "every node class x operand slot, with an item ref / an attribute-style nested ref / an expression "
